@@ -32,7 +32,7 @@ def owns(rule, flags):
 
 def make_case(rng, i):
     return F.basic_case(rng, PROFILE, hist=(4, 14), drivers=("sync", "inloop"), p_unknown=0.03,
-                        async_modes=("none", "none", "all", "half", "one"))
+                        async_modes=("none", "none", "all", "half", "one"), p_style=0.2)
 
 
 def signature(case, ck, log, fault):
